@@ -146,7 +146,7 @@ func Explore(cfg Config, body func() string) Stats {
 		}
 		if !r.Pruned {
 			st.Outcomes[r.Obs]++
-			key := fmt.Sprintf("%s|dl=%v|leak=%s|crash=%s|race=%s", r.Obs, r.Deadlock, strings.Join(r.Leaks, ";"), firstOf(r.Crashes), firstOf(r.Races))
+			key := fmt.Sprintf("%s|dl=%v|leak=%s|crash=%s|race=%s", r.Obs, r.Deadlock, strings.Join(r.Leaks, ";"), firstOf(r.Crashes), strings.Join(r.Races, ";"))
 			t := st.Terminals[key]
 			if t == nil {
 				t = &Terminal{Obs: r.Obs, Deadlock: r.Deadlock, Leaks: strings.Join(r.Leaks, "; "), Crash: firstOf(r.Crashes), Race: strings.Join(r.Races, "\n"), Choices: r.Choices, AfterMain: r.AfterMain}
@@ -170,7 +170,7 @@ func Explore(cfg Config, body func() string) Stats {
 			st.RaceExecs++
 			if r.Pruned {
 				// races seen on a pruned execution are still races
-				key := "pruned|race=" + firstOf(r.Races)
+				key := "pruned|race=" + strings.Join(r.Races, ";")
 				if st.Terminals[key] == nil {
 					st.Terminals[key] = &Terminal{Obs: "(pruned)", Race: strings.Join(r.Races, "\n"), Choices: r.Choices}
 				}
@@ -217,4 +217,30 @@ func Replay(choices []int, body func() string) Result {
 // library code (every Parse starts a tokenizer vthread).
 func RunDefault(body func() string) Result {
 	return RunOnce(nil, map[uint64]struct{}{}, true, false, body)
+}
+
+// RaceLines returns every distinct race description seen in any execution of the exploration, each
+// with the schedule of an execution that shows it.
+func (st *Stats) RaceLines() map[string][]int {
+	out := map[string][]int{}
+	var keys []string
+	for k := range st.Terminals {
+		keys = append(keys, k)
+	}
+	sort.Strings(keys)
+	for _, k := range keys {
+		t := st.Terminals[k]
+		if t.Race == "" {
+			continue
+		}
+		for _, line := range strings.Split(t.Race, "\n") {
+			if line == "" {
+				continue
+			}
+			if old, ok := out[line]; !ok || len(t.Choices) < len(old) {
+				out[line] = t.Choices
+			}
+		}
+	}
+	return out
 }
